@@ -1,334 +1,4 @@
-//! vcheck: decides the alpha-g properties C01..C20 by generated-input search
-//! against explicit oracles. See /verif/DESIGN.md.
-//!
-//!   vcheck run <id> <quick|thorough>      exit 0 held / 1 VIOLATION / 2 inconclusive
-//!   vcheck replay <file>                  re-run one saved case through the plain oracle
-mod calib;
-#[macro_use]
-mod engine;
-mod evgen;
-mod fuzzsupport;
-mod fwd;
-mod gen;
-mod midas;
-mod model;
-mod names;
-mod recgen;
-mod props;
-
-use engine::*;
-use serde_json::{json, Value};
-use std::collections::BTreeMap;
-use std::sync::Mutex;
-use std::time::Instant;
-
-pub struct PropDef {
-    pub id: &'static str,
-    pub rule: &'static str,
-    pub assumptions: &'static [&'static str],
-    pub run: fn(&Run),
-    pub replay: fn(&Run, &str, &Value) -> Option<Outcome>,
-}
-
-fn env_u64(k: &str, d: u64) -> u64 {
-    std::env::var(k).ok().and_then(|v| v.trim().parse::<i64>().ok()).map(|v| v as u64).unwrap_or(d)
-}
-
-fn load_known(dir: &str) -> KnownFile {
-    match std::fs::read_to_string(format!("{dir}/known_findings.json")) {
-        Ok(s) => serde_json::from_str(&s).unwrap_or_else(|e| {
-            eprintln!("HARNESS-ERROR: known_findings.json does not parse: {e}");
-            std::process::exit(2)
-        }),
-        Err(_) => KnownFile::default(),
-    }
-}
-
-fn new_run(prop: &str, tier: Tier) -> Run {
-    let dir = std::env::var("VERIF_DIR").unwrap_or_else(|_| "/verif".into());
-    let known = load_known(&dir);
-    Run {
-        prop: prop.to_string(),
-        tier,
-        seed: env_u64("VERIF_SEED", 1),
-        workers: env_u64("VERIF_WORKERS", 16).clamp(1, 64) as usize,
-        profile: if cfg!(debug_assertions) { "checked".into() } else { "release".into() },
-        verif_dir: dir,
-        known: known.findings,
-        ev: Mutex::new(Ev::default()),
-        per_check: Mutex::new(Vec::new()),
-        violations: Mutex::new(Vec::new()),
-        start: Instant::now(),
-        only: None,
-        breadcrumbs: std::sync::atomic::AtomicBool::new(false),
-    }
-}
-
-fn write_replay(r: &Run, v: &Violation) -> String {
-    let dir = format!("{}/replays/{}", r.verif_dir, r.prop);
-    let _ = std::fs::create_dir_all(&dir);
-    let body = json!({
-        "property": r.prop, "check": v.check, "profile": r.profile, "tier": r.tier.name(), "seed": r.seed,
-        "signature": v.fail.sig, "message": v.fail.msg, "case": v.case,
-    });
-    let path = format!("{dir}/{}-{:016x}.json", v.check, fingerprint(&body.to_string()));
-    if let Err(e) = std::fs::write(&path, serde_json::to_string_pretty(&body).unwrap()) {
-        eprintln!("HARNESS-ERROR: cannot write {path}: {e}");
-    }
-    path
-}
-
+//! vcheck binary: see the library crate (src/lib.rs) for everything.
 fn main() {
-    install_panic_hook();
-    let args: Vec<String> = std::env::args().collect();
-    let usage = || -> ! {
-        eprintln!("usage: vcheck run <id> <quick|thorough> [--evidence <path>] | vcheck replay <file> | vcheck list");
-        std::process::exit(2)
-    };
-    if args.len() < 2 {
-        usage();
-    }
-    // Everything runs on a big-stack thread: MainEvent is ~450 KiB by value.
-    let h = std::thread::Builder::new().stack_size(STACK).spawn(move || real_main(args)).unwrap();
-    let code = h.join().unwrap_or_else(|_| {
-        eprintln!("HARNESS-ERROR: unguarded panic in the harness: {:?}", LAST_PANIC_ANY.lock().ok().and_then(|g| g.clone()));
-        2
-    });
-    std::process::exit(code);
-}
-
-fn real_main(args: Vec<String>) -> i32 {
-    let defs = props::all();
-    match args[1].as_str() {
-        "list" => {
-            for d in &defs {
-                println!("{}", d.id);
-            }
-            0
-        }
-        "run" if args.len() >= 4 => {
-            let tier = match args[3].as_str() {
-                "quick" => Tier::Quick,
-                "thorough" => Tier::Thorough,
-                _ => return 2,
-            };
-            let Some(def) = defs.iter().find(|d| d.id == args[2]) else {
-                eprintln!("HARNESS-ERROR: unknown property {}", args[2]);
-                return 2;
-            };
-            let evidence_path = args.iter().position(|a| a == "--evidence").and_then(|i| args.get(i + 1)).cloned();
-            run_prop(def, tier, evidence_path)
-        }
-        "replay" if args.len() >= 3 => replay(&defs, &args[2]),
-        // gen-corpus <target> <dir> <seed>
-        "gen-corpus" if args.len() >= 5 => fuzzsupport::write_corpus(&args[2], &args[3], args[4].parse().unwrap_or(1)),
-        // import-artifact <property> <target> <crash file>: writes a replay file, prints its path
-        "import-artifact" if args.len() >= 5 => {
-            let Ok(bytes) = std::fs::read(&args[4]) else { return 2 };
-            let r = new_run(&args[2], Tier::Quick);
-            // `--hang`: a libFuzzer timeout artifact; do not execute it here
-            let fail = if args.iter().any(|a| a == "--hang") {
-                Fail::new("hang@libfuzzer-timeout", "libFuzzer reported no progress within its 20 s timeout on this input")
-            } else {
-                fuzzsupport::fuzz_entry(&args[3], &bytes).err().unwrap_or_else(|| Fail::new("fuzz-not-reproduced", "the saved input passes the oracle outside libFuzzer"))
-            };
-            let known = r.known_key(&fail.sig).is_some();
-            let path = write_replay(&r, &Violation { check: format!("fuzz_{}", args[3]), case: serde_json::to_value(&bytes).unwrap(), fail });
-            println!("{}{path}", if known { "KNOWN " } else { "" });
-            0
-        }
-        other => {
-            // helper sub-commands of individual properties (child processes)
-            if let Some(code) = props::subcommand(other, &args[2..]) {
-                return code;
-            }
-            eprintln!("HARNESS-ERROR: bad arguments {:?}", &args[1..]);
-            2
-        }
-    }
-}
-
-fn watchdog(limit_s: u64) {
-    std::thread::spawn(move || {
-        std::thread::sleep(std::time::Duration::from_secs(limit_s));
-        println!("INCONCLUSIVE: watchdog after {limit_s} s (no verdict)");
-        std::process::exit(2);
-    });
-}
-
-fn run_prop(def: &PropDef, tier: Tier, evidence_path: Option<String>) -> i32 {
-    let r = new_run(def.id, tier);
-    watchdog(env_u64("VERIF_WATCHDOG_S", tier.pick(3000, 6 * 3600)));
-    let regress = replay_regressions(def, &r);
-    (def.run)(&r);
-    let wall = r.start.elapsed().as_secs_f64();
-    let ev = std::mem::take(&mut *r.ev.lock().unwrap());
-    let violations = std::mem::take(&mut *r.violations.lock().unwrap());
-    let mut known_lines = Vec::new();
-    for k in r.known.iter().filter(|k| k.property == r.prop) {
-        let hits = ev.known_hits.get(&k.key).copied().unwrap_or(0);
-        if hits > 0 {
-            println!("KNOWN-FINDING: property={} {} [key={} hits={}]", r.prop, k.what, k.key, hits);
-        } else {
-            eprintln!("note: known finding {} of {} was not reproduced by this run", k.key, r.prop);
-        }
-        known_lines.push(json!({"key": k.key, "what": k.what, "hits": hits}));
-    }
-    let mut replay_paths = Vec::new();
-    for v in &violations {
-        let path = write_replay(&r, v);
-        println!("VIOLATION property={} replay={}", r.prop, path);
-        eprintln!("  check={} signature={} :: {}", v.check, v.fail.sig, v.fail.msg.chars().take(600).collect::<String>());
-        replay_paths.push(path);
-    }
-    let labels: BTreeMap<_, _> = ev.labels.iter().collect();
-    let mut samples = ev.samples.clone();
-    if samples.is_empty() {
-        samples.push(json!("no sample recorded"));
-    }
-    let evidence = json!({
-        "property_id": r.prop,
-        "tier": tier.name(),
-        "seed": r.seed as i64,
-        "level": "exploration",
-        "coverage": {
-            "evaluations": ev.evaluations,
-            "distinct_nontrivial": ev.nontrivial.len(),
-            "rule": def.rule,
-            "samples": samples,
-            "labels": labels,
-            "checks": *r.per_check.lock().unwrap(),
-            "known_findings": known_lines,
-            "profile": r.profile,
-            "workers": r.workers,
-            "regression_inputs_replayed": regress,
-            "replays": replay_paths,
-        },
-        "assumptions": def.assumptions,
-        "wall_s": wall,
-        "violations": violations.len(),
-    });
-    let path = evidence_path.unwrap_or_else(|| format!("{}/evidence/{}.json", r.verif_dir, r.prop));
-    if let Some(parent) = std::path::Path::new(&path).parent() {
-        let _ = std::fs::create_dir_all(parent);
-    }
-    if let Err(e) = std::fs::write(&path, serde_json::to_string_pretty(&evidence).unwrap()) {
-        eprintln!("HARNESS-ERROR: cannot write evidence {path}: {e}");
-        return 2;
-    }
-    eprintln!(
-        "{} {} [{}] seed={} evaluations={} distinct_nontrivial={} violations={} wall={:.1}s",
-        r.prop, tier.name(), r.profile, r.seed, ev.evaluations, ev.nontrivial.len(), violations.len(), wall
-    );
-    if !violations.is_empty() {
-        return 1;
-    }
-    if ev.evaluations == 0 || ev.nontrivial.len() < 2 {
-        eprintln!("HARNESS-ERROR: the generators produced no non-trivial case");
-        return 2;
-    }
-    0
-}
-
-/// Replay tier: every saved counter-example under regress/<id>/ goes through the
-/// plain oracle first (seconds). Returns how many were replayed.
-fn replay_regressions(def: &PropDef, r: &Run) -> usize {
-    let dir = format!("{}/regress/{}", r.verif_dir, r.prop);
-    let mut files: Vec<_> = std::fs::read_dir(&dir).map(|d| d.filter_map(|e| e.ok()).map(|e| e.path()).collect()).unwrap_or_default();
-    files.sort();
-    let mut n = 0;
-    for f in files {
-        let Ok(s) = std::fs::read_to_string(&f) else { continue };
-        let Ok(v) = serde_json::from_str::<Value>(&s) else { continue };
-        let check = v["check"].as_str().unwrap_or("").to_string();
-        let result = if let Some(target) = check.strip_prefix("fuzz_") {
-            Some(replay_case(&v["case"], |b: &Vec<u8>, _| fuzzsupport::fuzz_entry(target, b)))
-        } else {
-            (def.replay)(r, &check, &v["case"])
-        };
-        n += 1;
-        r.with_ev(|ev| ev.eval());
-        if let Some(Err(fail)) = result {
-            r.report(&check, v["case"].clone(), fail);
-        }
-    }
-    n
-}
-
-fn replay(defs: &[PropDef], file: &str) -> i32 {
-    let Ok(s) = std::fs::read_to_string(file) else {
-        eprintln!("HARNESS-ERROR: cannot read {file}");
-        return 2;
-    };
-    let Ok(v) = serde_json::from_str::<Value>(&s) else {
-        eprintln!("HARNESS-ERROR: {file} is not JSON");
-        return 2;
-    };
-    let prop = v["property"].as_str().unwrap_or("");
-    let check = v["check"].as_str().unwrap_or("");
-    let Some(def) = defs.iter().find(|d| d.id == prop) else {
-        eprintln!("HARNESS-ERROR: unknown property {prop}");
-        return 2;
-    };
-    if v["signature"].as_str().map_or(false, |s| s.starts_with("hang@")) {
-        // a saved hang: reproducing it means not coming back within the limit
-        let file = file.to_string();
-        let prop = prop.to_string();
-        std::thread::spawn(move || {
-            std::thread::sleep(std::time::Duration::from_secs(30));
-            println!("VIOLATION property={prop} replay={file}");
-            eprintln!("  the saved input still makes the decoder loop for more than 30 s");
-            std::process::exit(1);
-        });
-    } else {
-        watchdog(3600);
-    }
-    let tier = if v["tier"].as_str() == Some("thorough") { Tier::Thorough } else { Tier::Quick };
-    let mut r = new_run(prop, tier);
-    if let Some(s) = v["seed"].as_u64() {
-        r.seed = s;
-    }
-    // Cases of enumerations / bespoke drivers are re-run through the property's
-    // own driver restricted to that item.
-    if v["case"].is_null() || (v["case"].is_object() && v["case"].as_object().unwrap().len() == 1 && v["case"]["index"].is_u64()) {
-        r.only = Some((check.to_string(), v["case"]["index"].as_u64().unwrap_or(0)));
-        (def.run)(&r);
-        let viol = std::mem::take(&mut *r.violations.lock().unwrap());
-        return match viol.first() {
-            None => {
-                println!("REPLAY-OK property={prop} check={check} [{}]", r.profile);
-                0
-            }
-            Some(v) => {
-                println!("VIOLATION property={prop} replay={file}");
-                eprintln!("  check={} signature={} :: {}", v.check, v.fail.sig, v.fail.msg);
-                1
-            }
-        };
-    }
-    let result = if let Some(target) = check.strip_prefix("fuzz_") {
-        Some(replay_case(&v["case"], |b: &Vec<u8>, _| fuzzsupport::fuzz_entry(target, b)))
-    } else {
-        (def.replay)(&r, check, &v["case"])
-    };
-    match result {
-        None => {
-            eprintln!("HARNESS-ERROR: check {check} of {prop} has no replay entry");
-            2
-        }
-        Some(Ok(())) => {
-            println!("REPLAY-OK property={prop} check={check} [{}]", r.profile);
-            0
-        }
-        Some(Err(f)) => {
-            if let Some(k) = r.known_key(&f.sig) {
-                println!("KNOWN-FINDING: property={prop} key={k} :: {}", f.msg);
-                0
-            } else {
-                println!("VIOLATION property={prop} replay={file}");
-                eprintln!("  check={check} signature={} :: {}", f.sig, f.msg);
-                1
-            }
-        }
-    }
+    vcheck::cli_main();
 }
